@@ -356,6 +356,26 @@ func checkC14(c *ctx) {
 			writeFile(filepath.Join(dir, rel, file), m.P.Source())
 			cases = append(cases, &c14case{Rel: rel, File: file, Kind: m.Kind, Expect: "reject"})
 		}
+		// two directives in one file: the verdict on the file must not depend on
+		// what the other directive of the file is, or on their order
+		if ms := mutateFlow(p, prog.NewRand(c.Seed, hashS("C14pair"), uint64(i))); len(ms) > 0 && i%2 == 0 {
+			m := ms[i/2%len(ms)]
+			mk := func(name string, host, guest *prog.Program) string {
+				h, g := cloneProg(host), cloneProg(guest)
+				h.Name, g.Name = name, name+"g"
+				h.Guest = g
+				writeFile(filepath.Join(dir, "y/"+name, "p.go"), h.Files("scratch/y/" + name)["p.go"])
+				return "y/" + name
+			}
+			cases = append(cases, &c14case{Rel: mk(p.Name+"wi", p, m.P), Kind: "two-flows-per-file:well-formed-then-" + m.Kind, Expect: "reject"})
+			cases = append(cases, &c14case{Rel: mk(p.Name+"iw", m.P, p), Kind: "two-flows-per-file:" + m.Kind + "-then-well-formed", Expect: "reject"})
+			cases = append(cases, &c14case{Rel: mk(p.Name+"ww", p, p2), Kind: "two-flows-per-file:both-well-formed", Expect: "accept"})
+			for ci, mc := range ms { // every cyclic variant after a well-formed flow (cycle detection keeps per-flow state)
+				if strings.HasPrefix(mc.Kind, "cycle") && mc.Kind != m.Kind {
+					cases = append(cases, &c14case{Rel: mk(fmt.Sprintf("%swc%d", p.Name, ci), p, mc.P), Kind: "two-flows-per-file:well-formed-then-" + mc.Kind, Expect: "reject"})
+				}
+			}
+		}
 		if i%4 == 0 {
 			p3 := cloneProg(p)
 			p3.Name = p.Name + "t"
@@ -405,7 +425,7 @@ func checkC14(c *ctx) {
 	bad := map[string]bool{}
 	for _, l := range strings.Split(vetOut, "\n") {
 		l = strings.TrimPrefix(strings.TrimPrefix(l, "vet: "), "./")
-		for _, pre := range []string{"w/", "x/"} {
+		for _, pre := range []string{"w/", "x/", "y/"} {
 			if strings.HasPrefix(l, pre) {
 				if i := strings.Index(l[2:], "/"); i > 0 {
 					bad[l[:2+i]] = true
@@ -477,7 +497,7 @@ func checkC14(c *ctx) {
 		"evaluations":         evals,
 		"distinct_nontrivial": len(distinct),
 		"rule": "Engine T: random well-formed flows (accepted, also in a second listing/option order) and every applicable single-defect mutation of each (no provider as task input / Results / predicate input; type provided by two tasks / twice in Params / by Params and a task; " +
-			"cycle direct / at distance >= 2 / through a predicate / self; unused param; unused output; Invoke stripped), each its own package, one cff process per package; reject = non-zero exit, diagnostic naming the file, no output file. " +
+			"cycle direct / at distance >= 2 / through a predicate / self; unused param; unused output; Invoke stripped), each its own package (a fifth of them in an in-package _test.go file; for every second base flow also files with two directives: well-formed + ill-formed in both orders, which must be rejected, and two well-formed ones, which must be accepted), one cff process per package; reject = non-zero exit, diagnostic naming the file, no output file. " +
 			"Slice/Map: all pairs of an 11-type lattice (identical, concrete<->interface, unnamed<->named, distinct named with equal underlying type) for element, index-less element, map key and map value; expected verdict computed with go/types.AssignableTo. distinct = distinct (kind, package)",
 		"samples":                           samples,
 		"cases_by_kind":                     byKind,
